@@ -26,6 +26,21 @@ type PropSpec struct {
 	Shipped  bool            // also start histories from every image shipped under test/images
 	TwoRuns  bool            // C12: run every history twice across a second boundary
 	Backends bool            // C14: run every history on both backends in lock-step
+	// Relabel: findings of another property's oracle that contradict this property's statement
+	// too (oracle key -> key under this property); set together with Prop
+	Prop    string
+	Relabel map[string]string
+}
+
+// relabel turns a finding of a borrowed oracle into a finding of the campaign's own property.
+func (s PropSpec) relabel(v *Violation) *Violation {
+	if v == nil || s.Prop == "" || v.Prop == s.Prop {
+		return v
+	}
+	if k, ok := s.Relabel[v.Key]; ok {
+		v.Prop, v.Key = s.Prop, k
+	}
+	return v
 }
 
 func kinds(ks ...string) map[string]bool {
@@ -40,10 +55,14 @@ var bothBackends = []string{"buf", "file"}
 
 var propSpecs = map[string]PropSpec{
 	"C01": {Profile: Profile{MaxCap: 8, MaxOps: 6, BigData: true, Backends: bothBackends, Rejects: 40, ObsReload: true, DetBias: 300},
-		Kinds: kinds("res", "hdr", "obj", "file", "rl", "shape"), Cases: [2]int{700, 12000}, Oracles: []string{"C01", "C08"},
+		Kinds: kinds("res", "hdr", "obj", "file", "rl", "shape"), Cases: [2]int{700, 12000}, Oracles: []string{"C01", "C08", "C02"},
+		Prop: "C01", Relabel: map[string]string{"C02:bystander-changed": "C01:earlier-object-changed"},
 		Corr: "corr.C01.create_add_readback (model bytes and view vs library, every create/add)"},
 	"C02": {Profile: Profile{MaxCap: 6, MaxOps: 28, Backends: []string{"buf"}, Rejects: 220, DetBias: 350, FailReaders: true, Foreign: 250},
-		Kinds: kinds("res", "hdr", "obj", "shape"), Cases: [2]int{600, 10000}, Oracles: []string{"C02"},
+		Kinds: kinds("res", "hdr", "obj", "shape"), Cases: [2]int{600, 10000}, Oracles: []string{"C02", "C01"},
+		Prop: "C02", Relabel: map[string]string{"C01:content": "C02:added-object-differs", "C01:attributes": "C02:added-object-differs",
+			"C01:name": "C02:added-object-differs", "C01:metadata": "C02:added-object-differs", "C01:count": "C02:added-object-differs",
+			"C01:time": "C02:added-object-differs", "C01:oci-digest": "C02:added-object-differs"},
 		Corr: "corr.C02.history_view (accept/reject and full view after every step)"},
 	"C03": {Profile: Profile{MaxCap: 6, MaxOps: 24, BigData: true, Backends: bothBackends, Rejects: 80, DetBias: 500, FailReaders: true, Foreign: 150},
 		Kinds: kinds("file", "obj", "hdr", "shape"), Cases: [2]int{500, 8000}, Oracles: []string{"C03"},
@@ -185,7 +204,7 @@ func runHistory(dir string, seed uint64, spec PropSpec, shipped string) (*Case, 
 			case o == "C13" && op.Kind == "q":
 				v = oracleC13(e, i, op, res)
 			}
-			if v != nil {
+			if v = spec.relabel(v); v != nil {
 				vs = append(vs, v)
 			}
 		}
